@@ -9,6 +9,7 @@ package main
 
 import (
 	"fmt"
+	"iter"
 	"os"
 	"sort"
 	"strings"
@@ -173,6 +174,7 @@ type opSpec struct {
 	Key  int64
 	Val  int64
 	Keys []int64
+	Seq  iter.Seq2[int64, int64] `json:"-"` // KeptAll only
 }
 
 func (o opSpec) String() string {
@@ -222,8 +224,12 @@ func do(kv *mapz.SafeKV[int64, int64], rec *hist.Recorder, client int, o opSpec)
 		rec.End(op, 0, ok, "")
 	case "Delete":
 		op := rec.Begin(client, o.Kind, 0, 0)
-		kv.Delete(o.Keys...)
+		arg := append([]int64(nil), o.Keys...)
+		kv.Delete(arg...)
 		rec.End(op, 0, true, fmt.Sprint(o.Keys))
+		for i := range arg { // the argument slice is the caller's again after the call
+			arg[i] = -9000 - int64(i)
+		}
 	case "Len":
 		op := rec.Begin(client, o.Kind, 0, 0)
 		n := kv.Len()
@@ -232,10 +238,16 @@ func do(kv *mapz.SafeKV[int64, int64], rec *hist.Recorder, client int, o opSpec)
 		op := rec.Begin(client, o.Kind, 0, 0)
 		ks := kv.Keys()
 		rec.End(op, int64(len(ks)), true, sortedInts(ks))
+		for i := range ks { // a returned slice is the caller's: writing to it must not reach the map or a later result
+			ks[i] = -7000 - int64(i)
+		}
 	case "Values":
 		op := rec.Begin(client, o.Kind, 0, 0)
 		vs := kv.Values()
 		rec.End(op, int64(len(vs)), true, sortedInts(vs))
+		for i := range vs {
+			vs[i] = -8000 - int64(i)
+		}
 	case "Range":
 		op := rec.Begin(client, o.Kind, 0, 0)
 		m := map[int64]int64{}
@@ -254,12 +266,18 @@ func do(kv *mapz.SafeKV[int64, int64], rec *hist.Recorder, client int, o opSpec)
 			ex += "DUPLICATE-KEY"
 		}
 		rec.End(op, int64(n), true, ex)
-	case "All":
-		op := rec.Begin(client, o.Kind, 0, 0)
+	case "All", "KeptAll":
+		// "KeptAll": the sequence was obtained from All() before the history began and is
+		// run now (and again later); it must enumerate the map as it is while it runs.
+		seq := o.Seq
+		if seq == nil {
+			seq = kv.All()
+		}
+		op := rec.Begin(client, "All", 0, 0)
 		m := map[int64]int64{}
 		n := 0
 		dup := false
-		for k, v := range kv.All() {
+		for k, v := range seq {
 			if _, ok := m[k]; ok {
 				dup = true
 			}
@@ -396,9 +414,10 @@ func setup(cfg config) *mapz.SafeKV[int64, int64] {
 	return kv
 }
 
-func tail(kv *mapz.SafeKV[int64, int64], rec *hist.Recorder) {
+func tail(kv *mapz.SafeKV[int64, int64], rec *hist.Recorder, kept iter.Seq2[int64, int64]) {
 	cl := rec.AddClient()
 	rec.Quiesce()
+	do(kv, rec, cl, opSpec{Kind: "KeptAll", Seq: kept})
 	do(kv, rec, cl, opSpec{Kind: "Len"})
 	do(kv, rec, cl, opSpec{Kind: "Keys"})
 	do(kv, rec, cl, opSpec{Kind: "Values"})
@@ -406,6 +425,9 @@ func tail(kv *mapz.SafeKV[int64, int64], rec *hist.Recorder) {
 		do(kv, rec, cl, opSpec{Kind: "Get", Key: int64(k)})
 	}
 	do(kv, rec, cl, opSpec{Kind: "Range"})
+	do(kv, rec, cl, opSpec{Kind: "KeptAll", Seq: kept})
+	do(kv, rec, cl, opSpec{Kind: "Keys"}) // after the earlier results were scribbled on
+	do(kv, rec, cl, opSpec{Kind: "Values"})
 }
 
 func judge(c *ev.Case, cfg config, ops []hist.Op, extra string) bool {
@@ -470,6 +492,7 @@ func ctlCase(c *ev.Case) {
 		cfg.Strategy = fmt.Sprintf("pct%d", sc.Depth)
 	}
 	kv := setup(cfg)
+	kept := kv.All()
 	rec := hist.NewRecorder(len(cfg.Threads), true)
 	bodies := make([]func(), len(cfg.Threads))
 	for t := range cfg.Threads {
@@ -501,7 +524,7 @@ func ctlCase(c *ev.Case) {
 		c.Add("aborted_runs", 1)
 		return
 	}
-	tail(kv, rec)
+	tail(kv, rec, kept)
 	ops := rec.Ops()
 	for _, l := range hist.Render(ops) {
 		c.Logf("%s", l)
@@ -522,6 +545,7 @@ func freeCase(c *ev.Case) {
 	cfg := genConfig(rng, 8, 5, 20)
 	cfg.Strategy = "go-runtime"
 	kv := setup(cfg)
+	kept := kv.All()
 	rec := hist.NewRecorder(len(cfg.Threads), false)
 	start := make(chan struct{})
 	var wg sync.WaitGroup
@@ -537,7 +561,7 @@ func freeCase(c *ev.Case) {
 	}
 	close(start)
 	wg.Wait()
-	tail(kv, rec)
+	tail(kv, rec, kept)
 	ops := rec.Ops()
 	c.Logf("config: %s", cfg.String())
 	for _, l := range hist.Render(ops) {
